@@ -197,7 +197,7 @@ def ensure_1d_with_singleton(to_check, names, func_name):
             # nd input where all trailing are ones
             msg = "Checking {0} inputs - Trimming trailing singletons from input '{1}' (input size {2})"
             logger.debug(msg.format(func_name, names[idx], xx.shape))
-            out_args[idx] = np.squeeze(xx)[:, np.newaxis]
+            out_args[idx] = xx.reshape(xx.shape[0], 1)
         if (xx.ndim > 2) and np.all(xx.shape[1:] == np.ones_like(xx.shape[1:])) == False:  # noqa: E712
             # nd input where some trailing are not one
             msg = "Checking {0} inputs - trailing dims of input '{1}' {2} must be singletons (length=1)"
